@@ -154,6 +154,18 @@ func TestC10_Precedence(t *testing.T) {
 				atoms[i] = ast.F(name)
 			}
 		}
+		// an operand may itself carry a unary operator (which binds tighter than
+		// every binary operator): !a && !b == c
+		for i := range atoms {
+			switch rapid.IntRange(0, 11).Draw(t, "unary-"+string(rune(97+i))) {
+			case 0, 1, 2:
+				atoms[i] = &ast.Unary{Op: "!", X: atoms[i]}
+			case 3:
+				atoms[i] = &ast.Unary{Op: gen.Pick(t, "usign", []string{"-", "+"}), X: atoms[i]}
+			case 4:
+				atoms[i] = &ast.Unary{Op: "!", X: &ast.Unary{Op: "!", X: atoms[i]}}
+			}
+		}
 		doc := jv.VObj(ms)
 		shape := rapid.IntRange(0, 9).Draw(t, "shape")
 		sp := map[*ast.Binary]string{}
